@@ -167,6 +167,7 @@ func runCHSite(r *Run, s *chSite) {
 			inline = func(callee *ssa.Function, depth int) bool { return chain[callee] && depth <= 3 }
 		}
 	}
+	givenOnly := false
 	if inline == nil && tag != nil {
 		// helpers that are handed the dispatch value decide on it: they are walked as part of fn
 		given := map[*ssa.Function]bool{}
@@ -186,10 +187,11 @@ func runCHSite(r *Run, s *chSite) {
 		}
 		if len(given) > 0 {
 			inline = func(callee *ssa.Function, depth int) bool { return given[callee] && depth <= 1 }
+			givenOnly = true
 		}
 	}
 	var tailInline func(*ssa.Function, int) bool
-	if inline == nil {
+	if inline == nil || givenOnly {
 		// tail delegation: a same-package helper whose result is what fn returns is followed, unless the
 		// site's expected outcomes speak about that helper by name
 		var exp strings.Builder
@@ -219,7 +221,10 @@ func runCHSite(r *Run, s *chSite) {
 			}
 		}
 		if len(tail) > 0 {
-			tailInline = func(callee *ssa.Function, depth int) bool { return tail[callee] && depth <= 2 }
+			prev := inline
+			tailInline = func(callee *ssa.Function, depth int) bool {
+				return (tail[callee] && depth <= 2) || (givenOnly && prev != nil && prev(callee, depth))
+			}
 		}
 	}
 	if tag == nil {
